@@ -106,4 +106,14 @@ var specs = map[string]*propSpec{
 		Faults: "single and paired faults per representation: resolver error/panic, wrong-type key, missing key, unknown/non-string __typename; completion orders of per-type groups and per-entity goroutines",
 		Assume: []string{"a missing @requires field is outside the statement and not injected", "explicit_requires / computed_requires variants need hand-written user code and are not generated (federation v2 default, function syntax and follow-schema layouts are)"},
 	},
+	"C10": {
+		ID: "C10", Scenario: "wiresim", Race: false, Level: "fault_enumeration", Cpu: 2,
+		Quick:    tierSpec{Runs: 40000, Budget: 75 * time.Second, Variants: []string{"v0"}},
+		Thorough: tierSpec{Runs: 2000000, Budget: 15 * time.Minute, Variants: []string{"v0", "v6"}},
+		Real:     []string{"every gqlgen transport: POST, GET, GRAPHQL, UrlEncodedForm, MultipartForm (upload mapping, limits, spill files), SSE, MultipartMixed, Websocket (both subprotocols, real gorilla peer over a pipe)", "graphql.RawParams.AddUpload", "graphql/handler.Server incl. its last-resort recover", "os temp files in a private TMPDIR", "generated executor with Upload scalar and nested input objects"},
+		Stubbed:  []string{"request body stream (simhttp.Body: truncation + EOF / read error at a seeded byte, re-chunking, lying Content-Length, callback at a byte offset)", "resolvers (never panic; upload resolvers read every file fully and report name/type/size/digest)", "network for websocket (net.Pipe)"},
+		Rule: "one run = one request on a seeded transport built from a valid base request and one fault: none, truncation at a seeded byte followed by EOF or by a read error, re-chunked reads, wrong Content-Length, or structured corruption of the JSON document (a seeded subtree replaced by null/number/string/array/object/bool or deleted); multipart uploads additionally: body over MaxUploadSize by 1..200 bytes, MaxMemory in {1, size-1, size} to force spill files, TMPDIR missing or removed at a seeded byte of the body, parts swapped/duplicated/dropped, a map path rewritten (wrong container kind, out-of-range / negative index, missing variable, missing prefix), operations without variables; websocket: 1-3 seeded frames from 40 malformed/edge messages before or after init, incl. torn frames. Oracle: RecoverFunc is never invoked (no user code panics here); the answer is a well-formed JSON GraphQL response (data, or non-empty errors with string messages; SSE events likewise; websocket frames are JSON objects with a type, a start is answered or the connection closed); no resolver runs for an over-limit body; the private TMPDIR is empty afterwards; well-formed uploads deliver exact bytes, filename and content type to every mapped path, read one after the other. non-trivial = a fault was injected or an upload was sent; distinct = hash of (transport, fault, fault detail, operation, status)",
+		Faults: "stream truncation/read error at every byte position (sampled), short reads, Content-Length lies, structured JSON corruption, upload size limits, spill-to-disk, temp dir missing/removed mid-request, multipart part order/dup/drop, upload map path corruption, malformed websocket frames",
+		Assume: []string{"'all byte strings' is not claimed: this is fault injection around valid requests, not fuzzing (DESIGN 5.10)", "read-only or full temp directories are not simulated (checks run as root; no mount)", "multipart/mixed framing itself is C12's concern"},
+	},
 }
